@@ -11,10 +11,11 @@
    cells are only ever appended or overwritten, never removed), a scope = list of (frame id, height), the frames
    searched innermost first exactly like Scope.get/localGet/set walk Vars and then parents.  The height is the
    number of cells the frame had when the scope was formed: the reference evaluator only sees that prefix (lexical
-   scoping), the Go code sees the whole map (a closure made while a dolist/dotimes/do* frame is still being filled
-   later sees the cells added afterwards).  No definition in this file is mode-dependent except through the small
-   functions [store_red], [truthy], [or_step], [last_red], [locate_m], [short_args], [neg_count], [do_test_atom]:
-   they are the complete list of places where M and S differ.
+   scoping), the Go code sees the whole map.  (Before the repairs C01-12/13 a closure made while a dolist / dotimes /
+   do* scope was still being filled later saw the cells added afterwards; now every frame is complete when the first
+   scope over it is formed, and the two views agree on every state a program of source forms reaches.)  No definition
+   in this file is mode-dependent except through the small functions [store_red], [locate_m], [short_args]: they are
+   the complete list of places where M and S differ.
 
    Side effects are calls of the harness-defined function (tr k e): evaluates e, appends k to the trace, returns
    the (primary) value of e.  No proofs in this file. *)
@@ -186,40 +187,16 @@ Definition store_red (m : mode) (v : val) : out val :=
   | Ref => Ok (primary v)
   | Chk => if is_values v then Er EDev else Ok v
   end.
-(* tests (if when unless cond and or do): Go compares the object with nil, so a Values object is true *)
-Definition truthy (m : mode) (v : val) : out bool :=
-  match m with
-  | Slip => Ok (negb (is_nil v))
-  | Ref => Ok (negb (is_nil (primary v)))
-  | Chk => if is_values v && is_nil (primary v) then Er EDev else Ok (negb (is_nil v))
-  end.
-(* or, a form that is not the last one: Some r = stop with r *)
+(* tests of if, when, unless, cond, and, do, do* : the primary value is compared with nil (the same in every mode since the
+   repair that routes the tests through firstValue; the mode argument is kept for uniformity with the other switches) *)
+Definition truthy (m : mode) (v : val) : out bool := Ok (negb (is_nil (primary v))).
+(* or, a form that is not the last one: Some r = stop with r.  The primary value is tested and returned (the same in
+   every mode since the repair of or.go; the mode argument is kept for uniformity with the other switches) *)
 Definition or_step (m : mode) (v : val) : out (option val) :=
-  match m with
-  | Slip => Ok (if is_nil v then None else Some v)
-  | Ref => Ok (if is_nil (primary v) then None else Some (primary v))
-  | Chk => if is_values v then Er EDev else Ok (if is_nil v then None else Some v)
-  end.
-(* progn (its arguments go through Function.Eval) returns vs[0] of its last form, setq returns the object it
-   evaluated, mapcar stores what the call returned, a cond clause without forms returns its test object:
-   [last_red true] = the language passes all values on, Go only the first; [last_red false] = the language
-   takes the primary value, Go keeps the Values object *)
-Definition last_red (all : bool) (m : mode) (v : val) : out val :=
-  match m with
-  | Slip => if all then arg_red Slip v else Ok v
-  | Ref => if all then Ok v else Ok (primary v)
-  | Chk => if is_values v then Er EDev else Ok v
-  end.
+  Ok (if is_nil (primary v) then None else Some (primary v)).
 (* Lambda.Call with fewer arguments than parameters binds what it has (the rest stays unbound) *)
 Definition short_args (m : mode) : out unit :=
   match m with Slip => Ok tt | Ref => Er EArity | Chk => Er EDev end.
-(* dotimes: the variable is finally bound to the count; the language says to the number of iterations *)
-Definition neg_count (m : mode) (n : Z) : out Z :=
-  if (n <? 0)%Z then match m with Slip => Ok n | Ref => Ok 0%Z | Chk => Er EDev end else Ok n.
-(* do: an end test that is not a list form is never evaluated (the loop does not end) *)
-Definition is_atom (e : expr) : bool := match e with EConst _ | EVar _ => true | _ => false end.
-Definition do_test_atom (m : mode) : out bool :=          (* true = treat the test as always nil *)
-  match m with Slip => Ok true | Ref => Ok false | Chk => Er EDev end.
 
 (* ---------------------------------------------------------------------------------------------- built-ins *)
 Definition big : Z := 4611686018427387904%Z.             (* 2^62: beyond it fixnum arithmetic is C05's *)
@@ -361,13 +338,6 @@ Fixpoint ev_inits (st : state) (sc : scope) (es : list expr) : res (list val) :=
 Definition ev_test (st : state) (sc : scope) (c : expr) : res bool :=
   bind (ev st sc c) (fun v st1 => (truthy m v, st1)).
 
-(* progn: Function.Eval evaluates every argument (reduced); Progn.Call returns the last *)
-Fixpoint ev_progn (st : state) (sc : scope) (es : list expr) : result :=
-  match es with
-  | [] => (Ok VNil, st)
-  | [e] => bind (ev st sc e) (fun v st1 => (last_red true m v, st1))
-  | e :: es' => bind (ev st sc e) (fun v st1 => bindo (arg_red m v) st1 (fun _ => ev_progn st1 sc es'))
-  end.
 Fixpoint ev_cond (st : state) (sc : scope) (cls : list (expr * list expr)) : result :=
   match cls with
   | [] => (Ok VNil, st)
@@ -375,7 +345,7 @@ Fixpoint ev_cond (st : state) (sc : scope) (cls : list (expr * list expr)) : res
       bind (ev st sc c) (fun v st1 =>
       bindo (truthy m v) st1 (fun b =>
       if b then match body with
-                | [] => (last_red false m v, st1)
+                | [] => (Ok (primary v), st1)          (* the primary value of the test (after the repair) *)
                 | _ => ev_seq st1 sc body VNil
                 end
       else ev_cond st1 sc cls'))
@@ -421,8 +391,7 @@ Fixpoint ev_setq (st : state) (sc : scope) (ps : list (string * expr)) (last : v
   | (x, e) :: ps' =>
       bind (ev st sc e) (fun v st1 =>
       bindo (arg_red m v) st1 (fun a =>              (* Scope.Set stores vs.First() *)
-      bind (assign st1 sc x a) (fun _ st2 =>
-      bindo (last_red false m v) st2 (fun r => ev_setq st2 sc ps' r))))
+      bind (assign st1 sc x a) (fun _ st2 => ev_setq st2 sc ps' a)))      (* setq returns what it stored *)
   end.
 
 (* Lambda.Call + BoundCall; Caller.Call of a built-in *)
@@ -440,9 +409,8 @@ Fixpoint ev_map (st : state) (c : callable) (rows : list (list val)) : res (list
   match rows with
   | [] => (Ok [], st)
   | row :: rows' =>
-      bind (apply_fn st c row) (fun v st1 =>
-      bindo (last_red false m v) st1 (fun a =>
-      bind (ev_map st1 c rows') (fun vs st2 => (Ok (a :: vs), st2))))
+      bind (apply_fn st c row) (fun v st1 =>                  (* the primary value of each call (after the repair) *)
+      bind (ev_map st1 c rows') (fun vs st2 => (Ok (primary v :: vs), st2)))
   end.
 (* dolist / dotimes: the variable lives in cell 0 of frame f *)
 Fixpoint ev_iter (st : state) (sc : scope) (f : nat) (x : string) (vs : list val) (es : list expr) : res unit :=
@@ -452,13 +420,15 @@ Fixpoint ev_iter (st : state) (sc : scope) (f : nat) (x : string) (vs : list val
   end.
 Definition ev_opt (st : state) (sc : scope) (r : option expr) : result :=
   match r with None => (Ok VNil, st) | Some e => ev st sc e end.
-(* do*: initial values in sequence, each stored at once in frame f *)
-Fixpoint ev_inits_seq (st : state) (sc : scope) (f : nat) (bs : list (string * expr * option expr)) : res unit :=
+(* do* (after the repair of setupDo): initial values in sequence, each init form sees the variables before it, each
+   variable gets a scope of its own like let*; the result is the innermost scope *)
+Fixpoint ev_inits_seq (st : state) (sc : scope) (bs : list (string * expr * option expr)) : res scope :=
   match bs with
-  | [] => (Ok tt, st)
+  | [] => (Ok sc, st)
   | (x, e, _) :: bs' =>
-      bind (ev st ((f, List.length (get_frame st f)) :: sc) e) (fun v st1 =>
-      bindo (store_red m v) st1 (fun a => ev_inits_seq (bind_in st1 f x a) sc f bs'))
+      bind (ev st sc e) (fun v st1 =>
+      bindo (store_red m v) st1 (fun a =>
+      let '(f, st2) := alloc st1 [(x, a)] in ev_inits_seq st2 ((f, 1) :: sc) bs'))
   end.
 (* do: all step forms, then all assignments; a variable without step form keeps its value (after the repair) *)
 Fixpoint ev_steps_par (st : state) (sc : scope) (bs : list (string * expr * option expr)) : res (list (string * val)) :=
@@ -470,14 +440,19 @@ Fixpoint ev_steps_par (st : state) (sc : scope) (bs : list (string * expr * opti
       bindo (store_red m v) st1 (fun a =>
       bind (ev_steps_par st1 sc bs') (fun xs st2 => (Ok ((x, a) :: xs), st2))))
   end.
-Fixpoint ev_steps_seq (st : state) (sc : scope) (f : nat) (bs : list (string * expr * option expr)) : res unit :=
-  match bs with
-  | [] => (Ok tt, st)
-  | (x, _, None) :: bs' => ev_steps_seq st sc f bs'
-  | (x, _, Some s) :: bs' =>
+(* do*: each step form, evaluated in the innermost scope, is assigned at once to its variable in the scope where
+   that variable lives (sb.scope.UnsafeLet): fs are the frames of the variables, in the order of the bindings *)
+Fixpoint ev_steps_seq (st : state) (sc : scope) (fs : list nat) (bs : list (string * expr * option expr)) : res unit :=
+  match bs, fs with
+  | [], _ => (Ok tt, st)
+  | _ :: _, [] => (Er EMalformed, st)
+  | (x, _, None) :: bs', _ :: fs' => ev_steps_seq st sc fs' bs'
+  | (x, _, Some s) :: bs', f :: fs' =>
       bind (ev st sc s) (fun v st1 =>
-      bindo (store_red m v) st1 (fun a => ev_steps_seq (bind_in st1 f x a) sc f bs'))
+      bindo (store_red m v) st1 (fun a => ev_steps_seq (bind_in st1 f x a) sc fs' bs'))
   end.
+(* the frames of the n variables of a do* whose innermost scope is sc, outermost variable first *)
+Definition var_frames (n : nat) (sc : scope) : list nat := map fst (rev (firstn n sc)).
 
 Definition evalF (st : state) (sc : scope) (e : expr) : result :=
   match e with
@@ -490,7 +465,7 @@ Definition evalF (st : state) (sc : scope) (e : expr) : result :=
       | None => (Er EUnbound, st)
       end)
   | EFun f => bindo (resolve_name st f) st (fun _ => (Ok (VFn f), st))
-  | EProgn es => ev_progn st sc es
+  | EProgn es => ev_seq st sc es VNil        (* Progn.Call (after the repair): the forms in sequence, every value of the last *)
   | EProg1 e es =>
       bind (ev_args st sc (e :: es)) (fun vs st1 => (Ok (hd VNil vs), st1))
   | EIf c a b =>
@@ -556,48 +531,51 @@ Definition evalF (st : state) (sc : scope) (e : expr) : result :=
           end)
       | _ => (Er EMalformed, st1)
       end)
+  (* dolist / dotimes (after the repair): the list / count form is evaluated in the enclosing scope, then the scope
+     of the variable is made *)
   | EDolist x l r es =>
-      let '(f, st1) := alloc st [] in
-      bind (ev st1 ((f, 0) :: sc) l) (fun v st2 =>
-      bindo (if is_values v then last_red false m v else Ok v) st2 (fun v' =>
+      bind (ev st sc l) (fun v st2 =>
+      let v' := primary v in                               (* the first value of the form (after the repair) *)
       match list_of v' with
       | None => (Er EType, st2)
       | Some vs =>
+          let '(f, st3) := alloc st2 [(x, VNil)] in
           let sc1 := (f, 1) :: sc in
-          bind (ev_iter (bind_in st2 f x VNil) sc1 f x vs es) (fun _ st3 => ev_opt (bind_in st3 f x VNil) sc1 r)
-      end))
+          bind (ev_iter st3 sc1 f x vs es) (fun _ st4 => ev_opt (bind_in st4 f x VNil) sc1 r)
+      end)
   | EDotimes x n r es =>
-      let '(f, st1) := alloc st [] in
-      bind (ev st1 ((f, 0) :: sc) n) (fun v st2 =>
-      bindo (if is_values v then last_red false m v else Ok v) st2 (fun v' =>
+      bind (ev st sc n) (fun v st2 =>
+      let v' := primary v in                               (* the first value of the form (after the repair) *)
       match v' with
       | VInt k =>
+          let '(f, st3) := alloc st2 [(x, VNil)] in
           let sc1 := (f, 1) :: sc in
-          bind (ev_iter (bind_in st2 f x VNil) sc1 f x (map (fun i => VInt (Z.of_nat i)) (seq 0 (Z.to_nat k))) es)
-               (fun _ st3 => bindo (neg_count m k) st3 (fun k' => ev_opt (bind_in st3 f x (VInt k')) sc1 r))
+          bind (ev_iter st3 sc1 f x (map (fun i => VInt (Z.of_nat i)) (seq 0 (Z.to_nat k))) es)
+               (* the variable is finally bound to the number of iterations: 0 for a negative count (after the repair) *)
+               (fun _ st4 => ev_opt (bind_in st4 f x (VInt (Z.max k 0))) sc1 r)
       | _ => (Er EType, st2)
-      end))
+      end)
   | EDo false bs test rs es =>
       bind (ev_inits st sc (map (fun b => snd (fst b)) bs)) (fun vs st1 =>
       let fr := mk_frame (map (fun b => fst (fst b)) bs) vs in
       let '(f, st2) := alloc st1 fr in
       ev st2 ((f, List.length fr) :: sc) (EDoLoop false bs test rs es))
   | EDo true bs test rs es =>
-      let '(f, st1) := alloc st [] in
-      bind (ev_inits_seq st1 sc f bs) (fun _ st2 =>
-      ev st2 ((f, List.length (get_frame st2 f)) :: sc) (EDoLoop true bs test rs es))
+      let '(f, st1) := alloc st [] in                      (* ns := s.NewScope(): the scope with the block / tagbody flags *)
+      bind (ev_inits_seq st1 ((f, 0) :: sc) bs) (fun sc1 st2 =>
+      ev st2 sc1 (EDoLoop true bs test rs es))
   | EDoLoop star bs test rs es =>
       match sc with
       | [] => (Er EMalformed, st)
       | (f, _) :: _ =>
-          bindo (if is_atom test then do_test_atom m else Ok false) st (fun never =>
-          bind (if never then (Ok false, st) else ev_test st sc test) (fun t st1 =>
+          (* the end test is evaluated whatever its shape (after the repair of setupDo: a variable or t too) *)
+          bind (ev_test st sc test) (fun t st1 =>
           if t then ev_seq st1 sc rs VNil
           else bind (ev_seq st1 sc es VNil) (fun _ st2 =>
-               bind (if star then ev_steps_seq st2 sc f bs
+               bind (if star then ev_steps_seq st2 sc (var_frames (List.length bs) sc) bs
                      else bind (ev_steps_par st2 sc bs) (fun xs st3 =>
                           (Ok tt, fold_left (fun s xv => bind_in s f (fst xv) (snd xv)) xs st3)))
-                    (fun _ st4 => ev st4 sc (EDoLoop star bs test rs es)))))
+                    (fun _ st4 => ev st4 sc (EDoLoop star bs test rs es))))
       end
   | EValues es => bind (ev_args st sc es) (fun vs st1 => (Ok (VValues vs), st1))
   | EMvb xs e es =>
